@@ -231,6 +231,7 @@ def check(ctx: Ctx) -> None:
                           fn.path, getattr(node, 'lineno', fn.lineno), operand='final-save')
     _check_load_guard(ctx)
     _check_cleanup(ctx)
+    _check_order_insensitive_compare(ctx)
 
 
 class _Guard(PathInterp):
@@ -315,6 +316,31 @@ def _check_load_guard(ctx: Ctx) -> None:
                       '(missing raise, or the raised class is swallowed by an enclosing handler): foreign partial '
                       'results are silently used or ignored instead of refused', fn.path, fn.lineno,
                       operand='mismatch-raises')
+
+
+def _check_order_insensitive_compare(ctx: Ctx) -> None:
+    """C07.f: the comparison behind the resume guard does not depend on the insertion order of the parameter mapping."""
+    from ..idioms import mapping_attrs, ordered_mapping_comparisons
+    M = ctx.model
+    ctx.rule('C07.f', 'the parameter comparison used by the resume guard (SimulationParameters.__eq__ / __ne__) never compares the keys of a '
+                      'mapping as a sequence nor pairs two mappings by position: a parameter object rebuilt from a file has the same '
+                      'content in a possibly different insertion order', floor=1)
+    cls = M.cls('SimulationParameters')
+    maps = mapping_attrs(M, cls)
+    for name in ('__eq__', '__ne__'):
+        fn = M.lookup_method(cls, name)
+        if fn is None:
+            if name == '__eq__':
+                ctx.error('C07.f: SimulationParameters defines no __eq__: the resume guard compares identities (cannot tell)')
+            continue
+        q = fn.qualname
+        ctx.instance('C07.f', q)
+        hits = list(ordered_mapping_comparisons(fn, maps))
+        ctx.obligation('C07.f', q, not hits, {'mapping_attributes': sorted(maps), 'ordered': [norm(h[0])[:70] for h in hits]}, nontrivial=name == '__eq__')
+        for node, why in hits[:1]:
+            ctx.violation('C07.f', q, '`%s`: %s; partial results saved by an identical simulation are refused whenever the mapping of the '
+                          'loaded object was filled in a different order (e.g. after a restart in a new interpreter)' % (norm(node)[:80], why),
+                          fn.path, node.lineno, operand='ordered-keys')
 
 
 def _check_cleanup(ctx: Ctx) -> None:
